@@ -329,14 +329,21 @@ func Check(o CheckOptions) int {
 					"-seed", strconv.FormatUint(o.Seed, 10),
 					"-from", strconv.Itoa(k), "-step", strconv.Itoa(w), "-total", strconv.Itoa(total),
 					"-deadline", strconv.FormatInt(edl.UnixNano(), 10))
+				// the result travels in a file: code under test may print to stdout (internal/protobuf does)
+				outf := filepath.Join(os.TempDir(), fmt.Sprintf("verif-worker-%d-%s-%d.json", os.Getpid(), en, k))
+				cmd.Env = append(os.Environ(), "VERIF_WORKER_OUT="+outf)
 				var so, se bytes.Buffer
 				cmd.Stdout = &so
 				cmd.Stderr = &se
 				err := cmd.Run()
 				r := &WorkerResult{}
 				if err == nil {
-					err = json.Unmarshal(so.Bytes(), r)
+					var b []byte
+					if b, err = os.ReadFile(outf); err == nil {
+						err = json.Unmarshal(b, r)
+					}
 				}
+				os.Remove(outf)
 				ch <- out{r, err, so.String() + se.String()}
 			}(k)
 		}
